@@ -978,3 +978,176 @@ Proof.
 Qed.
 
 End MutateTop.
+
+(* ------------------------------------------------------------------------------------------ histories (accumulator) *)
+Lemma peaks_spec_eq (D : Type) (H : D -> D -> D) (dflt : D) ls : peaks_spec D H dflt ls = peaks_at D H dflt 64 ls.
+Proof. reflexivity. Qed.
+Lemma path_eq (D : Type) (H : D -> D -> D) (dflt : D) ls i : path D H dflt ls i = path_at D H dflt 64 ls i.
+Proof. reflexivity. Qed.
+(* peaks_at 64 / path_at 64 unfold into 2^64-leaf if-trees: never let cbn / simpl / conversion open them *)
+Opaque peaks_spec path.
+
+Section History.
+Variable D : Type.
+Variable H : D -> D -> D.
+Variable deq : D -> D -> bool.
+Variable dflt : D.
+
+(* an operation as carried out on the accumulator, with the proofs the caller supplies *)
+Inductive mop : Type :=
+| MAppend (d : D)
+| MMutate (i : Z) (d : D) (mp : list D)
+| MBatch (lms : list (leaf_mutation D)).
+
+Definition erase (o : mop) : op D :=
+  match o with
+  | MAppend d => OpAppend D d
+  | MMutate i d _ => OpMutate D i d
+  | MBatch lms => OpBatch D (map (fun lm => fst lm) lms)
+  end.
+
+(* valid = in range (distinct for a batch) and every supplied proof is the authentication path of its
+   leaf in the list as it is before the operation *)
+Definition mop_valid (ls : list D) (o : mop) : Prop :=
+  op_valid D ls (erase o) = true /\
+  match o with
+  | MAppend _ => True
+  | MMutate i _ mp => mp = path D H dflt ls i
+  | MBatch lms => Forall (fun lm => snd lm = path D H dflt ls (fst (fst lm))) lms
+  end.
+
+Fixpoint mops_valid (ls : list D) (ops : list mop) : Prop :=
+  match ops with
+  | [] => True
+  | o :: r => mop_valid ls o /\ mops_valid (apply D ls (erase o)) r
+  end.
+
+Definition is_batch (o : mop) : bool := match o with MBatch _ => true | _ => false end.
+
+Definition acc_step (a : accumulator D) (o : mop) : option (accumulator D) :=
+  match o with
+  | MAppend d => match acc_append D H a d with Some (a', _) => Some a' | None => None end
+  | MMutate i d mp => acc_mutate_leaf D H a (i, d, mp)
+  | MBatch lms =>
+    match batch_mutate_leaf_and_update_mps D H deq a [] [] lms with
+    | Some (a', _, _) => Some a'
+    | None => None
+    end
+  end.
+
+Fixpoint acc_run (a : accumulator D) (ops : list mop) : option (accumulator D) :=
+  match ops with
+  | [] => Some a
+  | o :: r => match acc_step a o with Some a' => acc_run a' r | None => None end
+  end.
+
+Definition commits (a : accumulator D) (ls : list D) : Prop :=
+  a = (zlength ls, peaks_spec D H dflt ls).
+
+Lemma commits_empty : commits (0, []) [].
+Proof. unfold commits. rewrite peaks_spec_eq. rewrite peaks_at_nil. reflexivity. Qed.
+
+Lemma step_append a ls d : commits a ls -> zlength ls + 1 < 2 ^ 63 ->
+  acc_step a (MAppend d) = Some (zlength (ls ++ [d]), peaks_spec D H dflt (ls ++ [d])).
+Proof.
+  intros -> Hl. cbn [acc_step]. unfold acc_append. cbn [fst snd].
+  assert (Hl64 : zlength ls + 1 < 2 ^ 64) by (change (2 ^ 63) with 9223372036854775808 in Hl; change (2 ^ 64) with 18446744073709551616; lia).
+  rewrite append_spec by exact Hl64. cbn [obind].
+  unfold add64, two64. change (2 ^ 64) with 18446744073709551616 in Hl64.
+  destruct (Z.ltb_spec (zlength ls + 1) 18446744073709551616); [|lia]. cbn [obind].
+  rewrite zlength_app. reflexivity.
+Qed.
+
+Lemma step_mutate a ls i d : commits a ls -> 0 <= i < zlength ls -> zlength ls < 2 ^ 63 ->
+  acc_step a (MMutate i d (path D H dflt ls i)) = Some (zlength (upd ls i d), peaks_spec D H dflt (upd ls i d)).
+Proof.
+  intros -> Hi Hl. cbn [acc_step]. unfold acc_mutate_leaf. cbn [fst snd].
+  assert (Hl64 : zlength ls < 2 ^ 64) by (change (2 ^ 63) with 9223372036854775808 in Hl; change (2 ^ 64) with 18446744073709551616; lia).
+  rewrite (mutate_spec D H deq dflt) by assumption. cbn [obind]. rewrite zlength_upd. reflexivity.
+Qed.
+
+Lemma in_range_spec ls i : in_range D ls i = true <-> 0 <= i < zlength ls.
+Proof. unfold in_range. rewrite andb_true_iff, Z.leb_le, Z.ltb_lt. reflexivity. Qed.
+
+(* C11 history_commits for histories of appends and single-leaf mutations (any interleaving) *)
+Theorem history_commits_nobatch : forall ops ls a,
+  commits a ls -> zlength ls < 2 ^ 63 ->
+  forallb (fun o => negb (is_batch o)) ops = true ->
+  mops_valid ls ops ->
+  exists ls', ls' = run D ls (map erase ops) /\ acc_run a ops = Some (zlength ls', peaks_spec D H dflt ls') /\
+              zlength ls' < 2 ^ 63.
+Proof.
+  induction ops as [|o ops IH]; intros ls a Hc Hl Hnb Hv.
+  - exists ls. cbn [map run acc_run]. rewrite Hc. auto.
+  - cbn [forallb] in Hnb. apply andb_true_iff in Hnb. destruct Hnb as [Ho Hnb].
+    cbn [mops_valid] in Hv. destruct Hv as [[Hov Hpr] Hv].
+    cbn [map run acc_run].
+    destruct o as [d|i d mp|lms]; [| |discriminate Ho].
+    + cbn [erase op_valid] in Hov. apply Z.ltb_lt in Hov.
+      rewrite (step_append a ls d Hc Hov).
+      apply IH; auto.
+      * reflexivity.
+      * cbn [erase apply]. rewrite zlength_app. change (zlength [d]) with 1. exact Hov.
+    + cbn [erase op_valid] in Hov. apply in_range_spec in Hov. subst mp.
+      rewrite (step_mutate a ls i d Hc Hov Hl).
+      apply IH; auto.
+      * reflexivity.
+      * cbn [erase apply]. rewrite zlength_upd. exact Hl.
+Qed.
+
+End History.
+
+(* ------------------------------------------------------------------------------------------ verify_batch_update: rejections *)
+Lemma zmax_ge_init : forall l m, m <= zmax l m.
+Proof. induction l as [|x l IH]; intros m; cbn [zmax]; [lia|]. specialize (IH (Z.max x m)). lia. Qed.
+Lemma zmax_ge : forall l m x, In x l -> x <= zmax l m.
+Proof.
+  induction l as [|y l IH]; intros m x Hin; [contradiction|]. cbn [zmax]. destruct Hin as [->|Hin].
+  - pose proof (zmax_ge_init l (Z.max x m)). lia.
+  - apply IH. exact Hin.
+Qed.
+
+Lemma zmem_existsb x l : zmem x l = existsb (Z.eqb x) l.
+Proof. induction l as [|y l IH]; [reflexivity|]. cbn [zmem existsb]. rewrite IH. reflexivity. Qed.
+Lemma znodup_distinctb l : znodup l = distinctb l.
+Proof. induction l as [|y l IH]; [reflexivity|]. cbn [znodup distinctb]. rewrite IH, zmem_existsb. reflexivity. Qed.
+
+Section Vbu.
+Variable D : Type.
+Variable H : D -> D -> D.
+Variable deq : D -> D -> bool.
+
+(* lists with a repeated index, or with an index that is not below the leaf count, are rejected
+   (whatever the proofs, the new peaks and the appended leafs are) *)
+Theorem vbu_rejects_dup_oob (a : accumulator D) new_peaks appended (lms : list (leaf_mutation D)) :
+  distinctb (map (fun lm => fst (fst lm)) lms) = false \/
+  (exists lm, In lm lms /\ fst a <= fst (fst lm)) ->
+  verify_batch_update D H deq a new_peaks appended lms = Some false.
+Proof.
+  intros Hbad. unfold verify_batch_update. cbv zeta.
+  rewrite znodup_distinctb.
+  destruct (distinctb (map (fun x => fst (fst x)) lms)) eqn:Ed; cbn [negb]; [|reflexivity].
+  destruct Hbad as [Hd|(lm & Hin & Hge)]; [congruence|].
+  assert (Hin' : In (fst (fst lm)) (map (fun x => fst (fst x)) lms)) by (apply in_map_iff; exists lm; auto).
+  pose proof (zmax_ge _ 0 _ Hin') as Hm.
+  destruct (map (fun x => fst (fst x)) lms) as [|i0 rest] eqn:Em; [contradiction|].
+  cbn [length Nat.eqb negb andb orb].
+  destruct (Z.leb_spec (fst a) (zmax (i0 :: rest) 0)); [|lia].
+  rewrite orb_true_r. reflexivity.
+Qed.
+
+End Vbu.
+
+(* ------------------------------------------------------------------------------------------ C05: append returns the path *)
+Theorem acc_append_spec (D : Type) (H : D -> D -> D) (dflt : D) (ls : list D) (d : D) :
+  zlength ls + 1 < 2 ^ 63 ->
+  acc_append D H (zlength ls, peaks_spec D H dflt ls) d =
+  Some ((zlength (ls ++ [d]), peaks_spec D H dflt (ls ++ [d])), path D H dflt (ls ++ [d]) (zlength ls)).
+Proof.
+  intros Hl. unfold acc_append. cbn [fst snd].
+  assert (Hl64 : zlength ls + 1 < 2 ^ 64) by (change (2 ^ 63) with 9223372036854775808 in Hl; change (2 ^ 64) with 18446744073709551616; lia).
+  rewrite append_spec by exact Hl64. cbn [obind].
+  unfold add64, two64. change (2 ^ 64) with 18446744073709551616 in Hl64.
+  destruct (Z.ltb_spec (zlength ls + 1) 18446744073709551616); [|lia]. cbn [obind].
+  rewrite zlength_app. reflexivity.
+Qed.
